@@ -123,6 +123,10 @@ class C09(Check):
             plan["skip"] = sorted(set(plan["skip"]) | {rng.randrange(2, 0x7F)})
         if rng.random() < 0.12:
             plan["skip"] = sorted(set(plan["skip"]) | {1})
+        nb = [t - 1 for t in g.get(1, []) if t >= 3]
+        if nb and rng.random() < 0.15:
+            # the numeric neighbour below a session offered by the default session (candidates are tried in numeric order)
+            plan["skip"] = sorted(set(plan["skip"]) | {rng.choice(nb)})
         plan["reset"] = rng.random() < 0.2
         plan["offer_reset"] = rng.random() < 0.8
         plan["db"] = rng.random() < 0.4
